@@ -14,6 +14,11 @@ pub enum ChunkDeserializationError {
     )]
     NoPreviousChunkOnStream { csid: u32 },
 
+    /// A chunk in the middle of a message carried a header announcing a message length that is
+    /// smaller than the amount of data already received for that message.
+    #[error("Received chunk on csid {csid} announcing a message length of {message_length}, which is less than the data already received for that message")]
+    InvalidMessageLength { csid: u32, message_length: u32 },
+
     /// The max chunk size does not allow chunk sizes more than 2,147,483,647 (since it's encoded in only
     /// 31 bytes of the SetChunkSize message), so this error occurs when a chunk size of greater than
     /// this value is attempted to be set
